@@ -120,6 +120,7 @@ func c05Check(evs []c05Ev, overlap int32, report func(sig, what string)) (nItems
 		ids = append(ids, id)
 	}
 	sort.Ints(ids)
+	earlyReported := false
 	for _, id := range ids {
 		it := items[id]
 		if it.starts > 1 {
@@ -137,9 +138,24 @@ func c05Check(evs []c05Ev, overlap int32, report func(sig, what string)) (nItems
 			report("item-started-after-close-returned", fmt.Sprintf("item %d (Enqueue called t=%d, returned t=%d) started at t=%d, after the closing GracefulClose had returned (t=%d)",
 				id, it.enqCall, it.enqRet, it.start, closerRet))
 		}
+		// GracefulClose is a wait for the queue: everything queued before it was called has run (to its end) when the closing
+		// call returns. "Queued before" = its Enqueue returned before the first GracefulClose was called, or (items without an
+		// observable Enqueue, i.e. work the PeerConnection queued itself) it had already started by then.
+		queuedBeforeWait := firstCloseCall != 0 && ((it.enqRet != 0 && it.enqRet < firstCloseCall) ||
+			(it.enqCall == 0 && it.enqRet == 0 && it.start != 0 && it.start < firstCloseCall))
+		if queuedBeforeWait && closerRet != 0 && it.starts > 0 && it.start < closerRet && (it.end == 0 || it.end > closerRet) && !earlyReported {
+			earlyReported = true
+			report("close-returns-early", fmt.Sprintf("item %d was queued (Enqueue returned t=%d, started t=%d) before GracefulClose was called (t=%d), but the closing GracefulClose "+
+				"returned (t=%d) before the item ended (t=%d, 0 = never)", id, it.enqRet, it.start, firstCloseCall, closerRet, it.end))
+		}
 	}
 	// FIFO: Enqueue(a) returned before Enqueue(b) was called => a starts before b
-	byRet := append([]int{}, ids...)
+	byRet := make([]int, 0, len(ids))
+	for _, id := range ids {
+		if items[id].enqRet != 0 { // items without an observable Enqueue (queued by the PeerConnection itself) have no place in this order
+			byRet = append(byRet, id)
+		}
+	}
 	sort.Slice(byRet, func(i, j int) bool { return items[byRet[i]].enqRet < items[byRet[j]].enqRet })
 	fifoBad := 0
 	var maxStart int64
@@ -150,7 +166,10 @@ func c05Check(evs []c05Ev, overlap int32, report func(sig, what string)) (nItems
 	k := 0
 	for _, b := range byCall {
 		ib := items[b]
-		for k < len(byRet) && items[byRet[k]].enqRet != 0 && items[byRet[k]].enqRet < ib.enqCall {
+		if ib.enqCall == 0 {
+			continue
+		}
+		for k < len(byRet) && items[byRet[k]].enqRet < ib.enqCall {
 			ia := items[byRet[k]]
 			if ia.starts > 0 && ia.start > maxStart {
 				maxStart, maxStartID = ia.start, byRet[k]
@@ -193,6 +212,7 @@ type c05Env struct {
 	log    *c05Log
 	flag   *atomic.Bool
 	nextID atomic.Int32
+	prog   any // generated program (PeerConnection part), copied into the replay detail
 }
 
 func newC05Env() *c05Env {
@@ -270,7 +290,11 @@ func (e *c05Env) interleaving() string {
 func TestVerifC05(t *testing.T) { //nolint:gocognit,cyclop,maintidx
 	run := kit.Start(t, "C05", "concurrent programs on the real operations queue: E enqueuers × K unique-id items (some enqueue children), "+
 		"waiters (Done) and an optional GracefulClose, with seeded yields at the compiled-in points, plus scripted schedules for the "+
-		"worker hand-off window; non-trivial = ≥2 goroutines enqueued and the worker restarted at least once or a close/wait raced; "+
+		"worker hand-off window; plus close programs on real PeerConnections (1..3 Close/GracefulClose calls, sequenced or overlapping, "+
+		"with a gated item / gated OnNegotiationNeeded handler / startTransports in flight and white-box enqueues, API calls and Done "+
+		"waiters at every position, judged by the same trace oracles with the PeerConnection's GracefulClose as the close event); "+
+		"non-trivial = ≥2 goroutines enqueued and the worker restarted at least once or a close/wait raced (PeerConnection programs: always, "+
+		"something is queued after the graceful close returned); "+
 		"distinct = hash of the recorded (event kind, actor) interleaving")
 	defer run.Finish()
 	sched := kit.NewSched(kit.Seed())
@@ -285,14 +309,18 @@ func TestVerifC05(t *testing.T) { //nolint:gocognit,cyclop,maintidx
 			if len(evs) > 400 {
 				evs = evs[:400]
 			}
-			run.Violation(sig+":"+label, label+": "+what, idx, map[string]any{"schedule": label, "history": evs})
+			detail := map[string]any{"schedule": label, "history": evs}
+			if e.prog != nil {
+				detail["program"] = e.prog
+			}
+			run.Violation(sig+":"+label, label+": "+what, idx, detail)
 		}
 	}
-	finish := func(idx int, label string, e *c05Env, nontrivial bool) {
+	finish := func(idx int, label string, e *c05Env, nontrivial bool) bool {
 		if !e.quiesce() {
 			run.Inconclusive("worker-still-alive-after-watchdog:" + label)
 
-			return
+			return false
 		}
 		e.log.mu.Lock()
 		evs := append([]c05Ev{}, e.log.evs...)
@@ -303,6 +331,8 @@ func TestVerifC05(t *testing.T) { //nolint:gocognit,cyclop,maintidx
 		inter := e.interleaving()
 		run.Case(label+"|"+inter, nontrivial)
 		run.Seen("schedules", label)
+
+		return true
 	}
 
 	// ------------------------------------------------------------ scripted schedules (serial; cases 0..)
@@ -592,6 +622,9 @@ func TestVerifC05(t *testing.T) { //nolint:gocognit,cyclop,maintidx
 		}
 	}
 	sched.Perturb(0)
+
+	// ------------------------------------------------------------ close programs on real PeerConnections (c05_pc_test.go)
+	c05PCCases(run, sched, nScripted+nRand, kit.N(160, 2500), finish)
 	run.Set("hook_passes", sched.AllPasses())
 }
 
